@@ -32,6 +32,7 @@ def default_params(tier):
     p["budget_mult"] = 5000
     p["py_entry"] = 8
     p["size_hi"] = 30 if tier == "quick" else 60
+    p["includes"] = 8   # 1/8 of the elements / component tags sit in a partial pulled in with {% include %}
     return p
 
 
